@@ -1,8 +1,10 @@
 package main
 
 import (
+	"bufio"
 	"encoding/json"
 	"fmt"
+	"net"
 	"net/http"
 	"runtime"
 	"strings"
@@ -129,7 +131,7 @@ func expectFor(e ctxExpect, shape, tok string, ipLast int) ctxObs {
 	o.Route = "-"
 	o.Path = map[string]string{"direct": "/p/", "tsr": "/i/", "redirect": "/r/", "noroute": "/nope/", "nomethod": "/p/", "options": "/p/",
 		"lookup": "/p/", "lookupclone": "/p/", "clonewith": "/p/", "clone": "/p/",
-		"tsrclone": "/ic/", "hostdirect": "/hd/", "hosttsr": "/hi/", "statichost": "/hs/"}[shape] + tok
+		"tsrclone": "/ic/", "hostdirect": "/hd/", "hosttsr": "/hi/", "statichost": "/hs/", "hijack": "/hj/", "txnlookup": "/p/"}[shape] + tok
 	if e.Route == "pattern" {
 		o.Route = "/p/{x}"
 		switch shape {
@@ -143,6 +145,8 @@ func expectFor(e ctxExpect, shape, tok string, ipLast int) ctxObs {
 			o.Route = "{h}.example/hi/{x}/"
 		case "statichost":
 			o.Route = "static.example/hs/{x}"
+		case "hijack":
+			o.Route = "/hj/{x}"
 		}
 	}
 	return o
@@ -152,6 +156,15 @@ func sameObs(a, b ctxObs) bool {
 	x, _ := json.Marshal(a)
 	y, _ := json.Marshal(b)
 	return string(x) == string(y)
+}
+
+// hijackableWriter is an underlying writer whose connection can be taken over.
+type hijackableWriter struct{ *plainWriter }
+
+func (w *hijackableWriter) Hijack() (net.Conn, *bufio.ReadWriter, error) {
+	a, b := net.Pipe()
+	b.Close()
+	return a, bufio.NewReadWriter(bufio.NewReader(a), bufio.NewWriter(a)), nil
 }
 
 type keptClone struct {
@@ -175,6 +188,10 @@ func (cr *ctxReplayer) runSeq(v ctxVec, run string) {
 		o := observeCtx(c)
 		obsNow = &o
 		dirty(c, cur)
+		// the writer works for this request: what was just written is what it reports
+		if w := c.Writer(); w.Status() != 203 || w.Size() != len(cur) || !w.Written() {
+			obsNow.Err = fmt.Sprintf("writer after WriteHeader(203) and a %d byte body: status %d, size %d, written %v", len(cur), w.Status(), w.Size(), w.Written())
+		}
 	}
 	hClone := func(c fox.Context) {
 		o := observeCtx(c)
@@ -248,6 +265,34 @@ func (cr *ctxReplayer) runSeq(v ctxVec, run string) {
 	rt.MustHandle("GET", "/m/{y}", hManual(false))
 	rt.MustHandle("GET", "/mc/{y}", hManual(true))
 	rt.MustHandle("GET", "/ic/{x}/", hClone, fox.WithIgnoreTrailingSlash(true))
+	// the handler observes, then takes the connection over: whoever gets this context next must find a working writer
+	rt.MustHandle("GET", "/hj/{x}", func(c fox.Context) {
+		o := observeCtx(c)
+		obsNow = &o
+		if conn, _, err := c.Writer().Hijack(); err == nil && conn != nil {
+			conn.Close()
+		} else {
+			obsNow = &ctxObs{Err: fmt.Sprint("Hijack failed over a writer that supports it: ", err)}
+		}
+	})
+	// the handler routes its own request by hand through a read-only transaction
+	rt.MustHandle("GET", "/tl/{y}", func(c fox.Context) {
+		inner, _ := newRequest("GET", cur+".example", "/p/"+cur, "q="+cur)
+		inner.Header.Set("X-Req", cur)
+		inner.RemoteAddr = c.Request().RemoteAddr
+		_ = c.Fox().View(func(txn *fox.Txn) error {
+			rte, cc, _ := txn.Lookup(c.Writer(), inner)
+			if rte == nil || cc == nil {
+				obsNow = &ctxObs{Err: "Txn.Lookup found nothing"}
+				return nil
+			}
+			o := observeCtx(cc)
+			obsNow = &o
+			cc.Close()
+			return nil
+		})
+		dirty(c, cur)
+	})
 	// hostname routes switch the whole method tree to hostname mode (every request then goes through the hostname walk
 	// first): they are registered only for sequences that use them, so that the other sequences exercise the path-only mode
 	needsHost := false
@@ -318,6 +363,10 @@ func (cr *ctxReplayer) runSeq(v ctxVec, run string) {
 			path = "/hi/" + cur
 		case "statichost":
 			path = "/hs/" + cur
+		case "hijack":
+			path = "/hj/" + cur
+		case "txnlookup":
+			path = "/tl/" + cur
 		}
 		host := cur + ".example"
 		if st.Shape == "statichost" {
@@ -327,7 +376,11 @@ func (cr *ctxReplayer) runSeq(v ctxVec, run string) {
 		req.Header.Set("X-Req", cur)
 		req.RemoteAddr = fmt.Sprintf("192.0.2.%d:4000", 10+i)
 		obsNow, cloneNow, cloneObs = nil, nil, nil
-		rt.ServeHTTP(newPlainWriter(), req)
+		if st.Shape == "hijack" {
+			rt.ServeHTTP(&hijackableWriter{plainWriter: newPlainWriter()}, req)
+		} else {
+			rt.ServeHTTP(newPlainWriter(), req)
+		}
 		cr.evals.Add(1)
 		want := expectFor(st.Expect, st.Shape, cur, 10+i)
 		switch st.Shape {
